@@ -83,6 +83,24 @@ func getNonPluginExtendedCriticalAttributes(signerInfo *signature.SignerInfo) []
 	return criticalExtendedAttrs
 }
 
+// firstUnprocessedExtendedCriticalAttribute returns the first extended critical
+// attribute that is not a verification plugin header. Attributes with string
+// keys are skipped when stringKeysProcessed is true (they are handed to the
+// verification plugin); attributes with keys of other types (COSE labels) can
+// not be passed to a plugin and are never processed.
+func firstUnprocessedExtendedCriticalAttribute(signerInfo *signature.SignerInfo, stringKeysProcessed bool) *signature.Attribute {
+	for i, attr := range signerInfo.SignedAttributes.ExtendedAttributes {
+		if !attr.Critical {
+			continue
+		}
+		if key, ok := attr.Key.(string); ok && (stringKeysProcessed || slices.Contains(VerificationPluginHeaders, key)) {
+			continue
+		}
+		return &signerInfo.SignedAttributes.ExtendedAttributes[i]
+	}
+	return nil
+}
+
 // extractCriticalStringExtendedAttribute extracts a critical string Extended
 // attribute from a signer.
 func extractCriticalStringExtendedAttribute(signerInfo *signature.SignerInfo, key string) (string, error) {
